@@ -23,39 +23,70 @@ fn main() {
     std::process::exit(2);
   }
   let a = Args::parse(&argv[1..]);
-  let rep = match argv[0].as_str() {
-    "agg-replay" => agg::replay(&a),
-    "derive-replay" => derive::replay(&a),
-    "field-record" => field::record(&a),
-    "shamir-record" => shamir::record(&a),
-    "cert-record" => shamir::cert(&a),
-    "ggm-replay" => ggm::replay(&a),
-    "ggm-record" => ggm::record(&a),
-    "ggm-pairs" => ggm::pairs(&a),
-    "ggm-export" => ggm::export(&a),
-    "wire-replay" => wire::replay(&a),
-    "wire-record" => wire::record(&a),
-    "crash-sweep" => wire::crash_sweep(&a),
-    "oprf-check" => oprf::oprf_check(&a),
-    "dleq-replay" => oprf::dleq_replay(&a),
-    "nonce-check" => oprf::nonce_check(&a),
-    "proof-complete" => oprf::proof_complete(&a),
-    "serde-check" => oprf::serde_check(&a),
-    "protocol-replay" => protocol::replay(&a),
-    "srv-replay" => srv::replay(&a),
-    "srv-alltags" => srv::alltags(&a),
-    "srv-record" => srv::record(&a),
-    "recover-replay" => star::recover_replay(&a),
-    "star-record" => star2::record(&a),
-    "tamper-sweep" => star2::tamper_sweep(&a),
-    "adss-sizes" => star2::adss_sizes(&a),
-    "secret-scan" => star2::secret_scan(&a),
-    "length-sweep" => star2::length_sweep(&a),
-    "cipher-check" => star2::cipher_check(&a),
-    other => {
-      eprintln!("unknown subcommand {other}");
+  // An honest operation of the library failing in a way the harness does not expect (e.g. an
+  // honestly produced share that no longer decodes) makes the harness itself panic.  On the
+  // unchanged tree that never happens; when it does, it is reported as a violation of the
+  // property being checked — the library deviated from the behaviour every family relies on —
+  // not as a tool error.
+  let sub = argv[0].clone();
+  let run = std::panic::catch_unwind(std::panic::AssertUnwindSafe(|| dispatch(&sub, &a)));
+  let rep = match run {
+    Ok(Some(r)) => r,
+    Ok(None) => {
+      eprintln!("unknown subcommand {sub}");
       std::process::exit(2);
+    }
+    Err(_) => {
+      let prop = a.get("for").or(a.get("prop")).unwrap_or("C00").to_string();
+      let mut r = Report::new(&format!("{sub}-aborted"));
+      r.evaluations = 1;
+      r.violation(
+        &prop,
+        "harness",
+        &format!("harness-aborted:{sub}"),
+        format!(
+          "the harness could not complete `{sub}`: the library returned something no behaviour of the specification allows for an honest operation ({})",
+          last_harness_panic()
+        ),
+        serde_json::json!({"subcommand": sub, "panic": last_harness_panic()}),
+      );
+      r
     }
   };
   rep.emit();
+}
+
+fn dispatch(sub: &str, a: &Args) -> Option<Report> {
+  let a = a;
+  Some(match sub {
+    "agg-replay" => agg::replay(a),
+    "derive-replay" => derive::replay(a),
+    "field-record" => field::record(a),
+    "shamir-record" => shamir::record(a),
+    "cert-record" => shamir::cert(a),
+    "ggm-replay" => ggm::replay(a),
+    "ggm-record" => ggm::record(a),
+    "ggm-pairs" => ggm::pairs(a),
+    "ggm-export" => ggm::export(a),
+    "wire-replay" => wire::replay(a),
+    "wire-record" => wire::record(a),
+    "crash-sweep" => wire::crash_sweep(a),
+    "oprf-check" => oprf::oprf_check(a),
+    "dleq-replay" => oprf::dleq_replay(a),
+    "nonce-check" => oprf::nonce_check(a),
+    "proof-complete" => oprf::proof_complete(a),
+    "serde-check" => oprf::serde_check(a),
+    "protocol-replay" => protocol::replay(a),
+    "srv-replay" => srv::replay(a),
+    "srv-alltags" => srv::alltags(a),
+    "srv-record" => srv::record(a),
+    "recover-replay" => star::recover_replay(a),
+    "star-record" => star2::record(a),
+    "tamper-sweep" => star2::tamper_sweep(a),
+    "adss-sizes" => star2::adss_sizes(a),
+    "secret-scan" => star2::secret_scan(a),
+    "length-sweep" => star2::length_sweep(a),
+    "cipher-check" => star2::cipher_check(a),
+    _ => return None,
+  })
 }
